@@ -372,6 +372,22 @@ CLAIMS["C17"] = (
     "6/C17", TRUSTED + "; only strings produced by the printer are parsed (ill-formed input belongs to C18); literals "
     "are restricted to dyadic floating-point values so that the expected double is exact",
     "TLA+ printer as the definition of the syntax + TLC trace validation (parse vs direct construction)")
+CLAIMS["C15"] = (
+    "model_checking",
+    "TLC enumerates expressions in x, y (the five arithmetic operators over rationals, floats, pi, E and the symbols; "
+    "integer, fractional and symbolic powers; 27 functions incl. the reciprocal trigonometric ones; atan2, max/min, "
+    "piecewise; nested one level; 1200 sampled in the quick tier, ~30000 in the thorough one) in batches of 100 at "
+    "two (three) numeric bindings; ccode, C89CodePrinter and C99CodePrinter print each; cc -std=c99 / -std=c89 "
+    "compiles the printed source and the program is run; TLC validates per printer that what was printed compiles, "
+    "that the computed double equals the exact rational value of the expression at the binding where the "
+    "specification has one (long division, module Dbl), and in every case agrees to 2^-40 with the library's own "
+    "evaluation (bound to the specification by C12)",
+    "6/C15", TRUSTED + "; the host C compiler and libm; a printed call of a function the dialect's <math.h> does not "
+    "declare (loggamma, truncate; erf, fmin, asinh under C89) is the printers' by-name fallback for functions "
+    "without a C counterpart and decides nothing; float / long double precisions are printed but only the double "
+    "precision source is compiled",
+    "TLA+ exact value oracle + compile-and-run of the printed source + TLC trace validation")
+
 CLAIMS["C16"] = (
     "model_checking",
     "TLC enumerates expressions of the parseable fragment (23 atoms: identifiers with digits and underscores, "
